@@ -3,6 +3,7 @@ C09 (extension) — full removal and `clear` at program level, inside the refine
 (`Lemmas/ListRefine.lean`, which imports `Props/C09`; counted with C09's theorems by the check).
 -/
 import Cacache.Lemmas.ListRefine
+import Cacache.Lemmas.FaultMore
 
 namespace Cacache.C09x
 open Prog CacheRefine ListRefine Refine
@@ -69,5 +70,43 @@ theorem empty_cache_xhealthy (fs : FS)
     (hanc : ∀ q, q ≠ [] → q <+: cache → NoneOrDir fs q)
     (hbelow : ∀ q, cache <+: q → q ≠ cache → fs.get q = none) : XHealthy cfg cache fs :=
   xhealthy_of_empty_cache cfg cache fs hanc hbelow
+
+/-- **The only paths a full removal can change** — healthy or under every fault plan, whatever the
+filesystem holds: a path whose node differs after `remove_fully key` is the key's bucket file or
+the content path of the entry the lookup of `key` found in the initial filesystem.  (Sharper than
+`C09.removeFully_targets`, which exempts the whole content area: no OTHER content file can be
+touched.)  Moreover the run only removes (`SubFS`): nothing is created or altered. -/
+theorem removeFully_changes_only (env : Env) (plan : Nat → Option Fault) (key : Bytes) (fs : FS)
+    (i : Nat) (q : Path)
+    (hq : (runFault env plan (removeFully cfg cache key) fs i).2.1.get q ≠ fs.get q) :
+    q = bucketPath cfg cache key ∨
+    ∃ m cpath, (run env (find cfg cache key) fs).1 = .ok (some m) ∧
+      contentPath cache m.sri = some cpath ∧ q = cpath := by
+  by_cases hb : q = bucketPath cfg cache key
+  · exact Or.inl hb
+  · right
+    apply Classical.byContradiction
+    intro hno
+    apply hq
+    refine (FaultMore.removeFully_fault_removes cfg cache key env plan fs i).2.2.2 q ?_ hb
+    intro m cpath hm hc e
+    exact hno ⟨m, cpath, hm, hc, e⟩
+
+/-- The healthy run. -/
+theorem removeFully_changes_only_run (env : Env) (key : Bytes) (fs : FS) (q : Path)
+    (hq : (run env (removeFully cfg cache key) fs).2.1.get q ≠ fs.get q) :
+    q = bucketPath cfg cache key ∨
+    ∃ m cpath, (run env (find cfg cache key) fs).1 = .ok (some m) ∧
+      contentPath cache m.sri = some cpath ∧ q = cpath := by
+  have := removeFully_changes_only cfg cache env (fun _ => none) key fs 0 q
+  rw [runFault_none] at this
+  exact this hq
+
+/-- … and whatever changes is a removal. -/
+theorem removeFully_only_removes (env : Env) (plan : Nat → Option Fault) (key : Bytes) (fs : FS)
+    (i : Nat) (q : Path) :
+    (runFault env plan (removeFully cfg cache key) fs i).2.1.get q = fs.get q ∨
+    (runFault env plan (removeFully cfg cache key) fs i).2.1.get q = none :=
+  (FaultMore.removeFully_fault_removes cfg cache key env plan fs i).1 q
 
 end Cacache.C09x
